@@ -431,9 +431,7 @@ Proof.
     + rewrite (run_scenario_unselected _ _ _ _ _ _ _ Hs). rewrite Ha. cbn [andb]. rewrite E.
       eexists; eexists; split; [reflexivity|]. cbn [forallb length item_status sr_status]. rewrite A, B.
       split; [|split; [reflexivity|]].
-      * rewrite andb_true_r.
-        destruct (sc_steps s) as [|s0 r0] eqn:Es; [reflexivity|].
-        destruct (bg ++ s0 :: r0) as [|x y] eqn:Eb; [destruct bg; discriminate|]. reflexivity.
+      * rewrite andb_true_r. destruct (bg ++ sc_steps s) as [|x y] eqn:Eb; reflexivity.
       * rewrite allq_app, Q, andb_true_r. apply scen_ann_quiet.
     + apply orb_false_iff in Hs as [_ Hrows]. apply andb_true_iff in Hn as [Hn1 Hn2].
       unfold run_outline.
@@ -444,7 +442,7 @@ Proof.
           by (apply existsb_exists; exists x; auto). congruence. }
       assert (Hne : bg ++ o_steps o <> []) by (destruct (bg ++ o_steps o); [discriminate|congruence]).
       destruct (unselected_rows_skipped cfg (bg ++ o_steps o)
-                  (match o_steps o with [] => true | _ => false end) anc (outline_rows o) st Ha Hne Hr)
+                  (match bg ++ o_steps o with [] => true | _ => false end) anc (outline_rows o) st Ha Hne Hr)
         as (rrs & rev & Er & Ar & Br & Qr).
       rewrite Er. rewrite Ha. cbn [andb]. rewrite E.
       eexists; eexists; split; [reflexivity|]. cbn [forallb length item_status]. rewrite A, B.
